@@ -2069,7 +2069,7 @@ func extractText(textPart string, box Box) string {
 	switch textPart {
 	case "text", "content":
 		return boxText(box)
-	case "before", "after":
+	case "before", "after", "marker":
 		var builder strings.Builder
 		if ParentT.IsInstance(box) {
 			for _, child := range Descendants(box) {
